@@ -1,6 +1,6 @@
 #!/bin/bash
 # run_all.sh [quick|thorough]: every claimed check in turn; prints one line per property; exit 1 if any violation, 2 if any harness error
-cd /verif
+cd "$(dirname "$0")/.."
 TIER="${1:-quick}"
 RC=0
 for P in $(python3 -c "import json;print(' '.join(c['property_id'] for c in json.load(open('MANIFEST.json'))['checks']))"); do
